@@ -492,6 +492,152 @@ def Series.shiftBy (s : Series) : ShiftBy → R Series
     let s1 ← s.setDataP (withTty.map (·.1)) (.array (transpose s.nv data)) .all
     s1.setDataP neutral .pyNone .all
 
+/-! ### row statistics along variants (`series/_statistics.py`) -/
+
+inductive StatFn where
+  | sum | prod | mean | min | max
+  | nansum | nanprod | nanmean | nanmin | nanmax
+  deriving Repr, DecidableEq
+
+/-- the non-missing values of a row, or `none` when any cell is missing (NaN propagates through `np.sum/prod/mean/min/max`) -/
+def strictVals : List Cell → Option (List Rat)
+  | [] => some []
+  | none :: _ => none
+  | some x :: rest => (strictVals rest).map (fun l => x :: l)
+
+/-- the non-missing values of a row (what the `nan*` functions see) -/
+def obsVals (r : List Cell) : List Rat := r.filterMap id
+
+def sumQ (l : List Rat) : Rat := l.foldr (· + ·) 0
+def prodQ (l : List Rat) : Rat := l.foldr (· * ·) 1
+def minQ : List Rat → Option Rat
+  | [] => none
+  | x :: xs => some (xs.foldr (fun a b => if a < b then a else b) x)
+def maxQ : List Rat → Option Rat
+  | [] => none
+  | x :: xs => some (xs.foldr (fun a b => if a > b then a else b) x)
+def meanQ (l : List Rat) : Option Rat := if l.isEmpty then none else some (sumQ l / (l.length : Rat))
+
+/-- one row → one cell. `nansum` / `nanprod` of an all-missing row are 0 / 1, `nanmean/nanmin/nanmax` are NaN -/
+def StatFn.eval (f : StatFn) (r : List Cell) : Cell :=
+  match f with
+  | .sum => (strictVals r).map sumQ
+  | .prod => (strictVals r).map prodQ
+  | .mean => (strictVals r).bind meanQ
+  | .min => (strictVals r).bind minQ
+  | .max => (strictVals r).bind maxQ
+  | .nansum => some (sumQ (obsVals r))
+  | .nanprod => some (prodQ (obsVals r))
+  | .nanmean => meanQ (obsVals r)
+  | .nanmin => minQ (obsVals r)
+  | .nanmax => maxQ (obsVals r)
+
+/-- `x.sum()`, … : `data = np.f(data, axis=1).reshape(num_periods, -1); trim()`. Zero rows: the empty series
+(pending fix C10-c: the code's `reshape(0, -1)` raises). `min/max` of zero variants raise in numpy. -/
+def Series.rowStat (f : StatFn) (s : Series) : R Series :=
+  if s.nv = 0 ∧ (f = .min ∨ f = .max ∨ f = .nanmin ∨ f = .nanmax) then throw .badInput
+  else pure ({ s with nv := 1, rows := s.rows.map (fun r => [f.eval r]) } : Series).trim
+
+/-! ### moving windows (`series/_moving.py`) -/
+
+inductive MovFn where
+  | sum | avg | prod
+  deriving Repr, DecidableEq
+
+/-- `func(window, axis=2)` for one window (oldest value first); a missing value makes the result missing -/
+def MovFn.eval (f : MovFn) (w : List Cell) : Cell :=
+  match f with
+  | .sum => (strictVals w).map sumQ
+  | .avg => (strictVals w).bind meanQ
+  | .prod => (strictVals w).map prodQ
+
+/-- `_get_default_moving_window()` -/
+def Series.defaultWindow (s : Series) : Int :=
+  if s.start.isSome ∧ s.freq.value > 0 then -(s.freq.value) else -4
+
+/-- the sliding windows of length `wl` over the rows padded in front with `wl - 1` NaN rows -/
+def movRows (f : MovFn) (wl nv : Nat) (rows : List Row) : List Row :=
+  let padded := expand nv rows (wl - 1) 0          -- `np.pad(data, ((window_length - 1, 0), (0, 0)), constant_values=nan)`
+  (List.range rows.length).map (fun i =>
+    (List.range nv).map (fun v => f.eval ((List.range wl).map (fun k => cellAt padded (i + k) v))))
+
+/-- `moving_window(func, window)`: `window` is negative (`window_length = -window`), anything else raises in `np.pad`.
+Zero rows: the empty series (pending fix C10-d: `sliding_window_view` raises). -/
+def Series.movWindow (f : MovFn) (w : Option Int) (s : Series) : R Series :=
+  let wl : Int := -(w.getD s.defaultWindow)
+  if wl ≤ 0 then throw .badInput
+  else pure ({ s with rows := movRows f wl.toNat s.nv s.rows } : Series).trim
+
+/-! ### fill_missing (`series/_filling.py`) and replace_where -/
+
+inductive FillMethod where
+  | constant (c : Cell)
+  | next | previous | nearest | linear
+  deriving Repr, DecidableEq
+
+/-- the closest observed index at or after `i` -/
+def nextObs (col : List Cell) (i : Nat) : Option Nat :=
+  ((List.range col.length).filter (fun j => i ≤ j ∧ (col[j]?).getD none ≠ none)).head?
+
+/-- the closest observed index at or before `i` -/
+def prevObs (col : List Cell) (i : Nat) : Option Nat :=
+  ((List.range col.length).filter (fun j => j ≤ i ∧ (col[j]?).getD none ≠ none)).getLast?
+
+def colAt (col : List Cell) (j : Nat) : Cell := (col[j]?).getD none
+
+/-- the value a missing cell at index `i` receives -/
+def fillAt (m : FillMethod) (col : List Cell) (i : Nat) : Cell :=
+  match m with
+  | .constant c => c
+  | .next => (nextObs col i).bind (colAt col)
+  | .previous => (prevObs col i).bind (colAt col)
+  | .nearest =>
+    match prevObs col i, nextObs col i with
+    | some p, some n => if i - p ≤ n - i then colAt col p else colAt col n      -- `argmin` keeps the first: ties go back
+    | some p, none => colAt col p
+    | none, some n => colAt col n
+    | none, none => none
+  | .linear =>
+    match prevObs col i, nextObs col i with
+    | some p, some n =>
+      (match colAt col p, colAt col n with
+       | some a, some b => some (a + (b - a) * (((i : Rat) - (p : Rat)) / ((n : Rat) - (p : Rat))))
+       | _, _ => none)
+    | some p, none => colAt col p
+    | none, some n => colAt col n
+    | none, none => none
+
+/-- `_fill_neighbor` / `_fill_interp` / `_fill_constant` on one variant: observed cells stay, missing ones are filled -/
+def fillColumn (m : FillMethod) (col : List Cell) : List Cell :=
+  (List.range col.length).map (fun i => match colAt col i with | some x => some x | none => fillAt m col i)
+
+/-- `fill_missing(method, method_args, span)`: read the span, fill every variant by index, write the span back -/
+def Series.fillMissingP (s : Series) (m : FillMethod) (ps : List Period) : R Series := do
+  let data ← s.getDataP ps .all
+  let cols := transpose s.nv data
+  s.setDataP ps (.variants (cols.map (fun c => Col.column (fillColumn m c)))) .all
+
+inductive TestFn where
+  | lt (c : Rat) | le (c : Rat) | gt (c : Rat) | ge (c : Rat) | eq (c : Rat) | ne (c : Rat)
+  | isnan
+  deriving Repr, DecidableEq
+
+/-- `test(data)` cell by cell (comparisons with NaN are False, except `!=`) -/
+def TestFn.eval : TestFn → Cell → Bool
+  | .lt c, some x => decide (x < c)
+  | .le c, some x => decide (x ≤ c)
+  | .gt c, some x => decide (x > c)
+  | .ge c, some x => decide (x ≥ c)
+  | .eq c, some x => decide (x = c)
+  | .ne c, some x => decide (x ≠ c)
+  | .ne _, none => true
+  | .isnan, none => true
+  | _, _ => false
+
+/-- `replace_where(test, new_value)`: `data[test(data)] = new_value; trim()` -/
+def Series.replaceWhere (t : TestFn) (new : Cell) (s : Series) : Series :=
+  (mapCells (fun x => if t.eval x then new else x) s).trim
+
 /-! ### op sequences over a pool of series (the protocol of the differential check and of `reachable_inv`) -/
 
 inductive BinFn where | add | sub | mul
@@ -552,6 +698,10 @@ inductive Op where
   | scalar (k : Nat) (f : BinFn) (i : Nat) (c : Cell) (reflected : Bool) -- pool[k] = pool[i] f c   /   c f pool[i]
   | unary (k : Nat) (g : UnFn) (i : Nat)                                 -- pool[k] = -pool[i], +pool[i], abs(pool[i])
   | trim (i : Nat) | empty (i : Nat) | copy (k i : Nat)
+  | stat (k i : Nat) (f : StatFn)                                        -- pool[k] = irispie.sum(pool[i]) …; k = i: pool[i].sum()
+  | mov (k i : Nat) (f : MovFn) (w : Option Int)                         -- pool[k] = irispie.mov_sum(pool[i], w)
+  | fill (k i : Nat) (m : FillMethod) (dates : DatesArg)                 -- pool[k] = irispie.fill_missing(pool[i], m, arg, span=dates)
+  | replaceWhere (i : Nat) (t : TestFn) (new : Cell)                     -- pool[i].replace_where(test, new)
   deriving Repr
 
 inductive Output where
@@ -627,6 +777,13 @@ def step (p : Pool) : Op → R (Pool × Output)
   | .trim i => do pure (← p.put i (← p.get i).trim, .none)
   | .empty i => do pure (← p.put i (← p.get i).empty, .none)
   | .copy k i => do pure (← p.put k (← p.get i), .none)
+  | .stat k i f => do pure (← p.put k (← (← p.get i).rowStat f), .none)
+  | .mov k i f w => do pure (← p.put k (← (← p.get i).movWindow f w), .none)
+  | .fill k i m dates => do
+    let s ← p.get i
+    let ps ← s.resolveDates dates
+    pure (← p.put k (← s.fillMissingP m ps), .none)
+  | .replaceWhere i t new => do pure (← p.put i ((← p.get i).replaceWhere t new), .none)
 
 /-- a whole sequence; the first error ends it -/
 def run (p : Pool) : List Op → R Pool
